@@ -7,7 +7,7 @@ Monitors over failing (and accepted) inputs of the hostile workloads:
  3. rendering in {colour, no colour} x {unicode, ascii}: no failure, code tag present, no ESC without colour,
     ASCII arrows really ASCII;
  4. determinism: each input compiled in three different fresh worker processes gives the same verdict, the same
-    ordered list of (code, location) and the same IR text."""
+    ordered list of (code, location), the same rendered diagnostics (4 colour/charset configurations) and the same IR text."""
 import json
 import os
 import re
@@ -43,9 +43,10 @@ def digest(kind, r):
         return ("panic", common.panic_signature(r))
     if r["status"] == "ok":
         return ("ok", tuple((l["code"], l["file"], l["start"], l["end"], l["line"]) for l in r.get("lints", [])),
-                common.stable_hash([r.get("module_irs"), r.get("ir")]))
+                common.stable_hash([r.get("module_irs"), r.get("ir")]), common.stable_hash(r.get("lint_renders")))
     return (r["status"], r.get("stage"), tuple((e["code"], e["file"], e["start"], e["end"], e["line"], e["line_offset"])
-                                                for e in r.get("errors", [])))
+                                                for e in r.get("errors", [])),
+            common.stable_hash([r.get("renders"), r.get("lint_renders")]))
 
 
 def line_of(text, pos):
@@ -133,7 +134,7 @@ def run_case(case):
     ws = three_workers()
     results = []
     for j, w in enumerate(ws):
-        resp, crash = w.request(request(files, render=(j == 0)), timeout=60)
+        resp, crash = w.request(request(files, render=True), timeout=60)
         if crash is not None:
             if crash.kind == "hang":
                 return {"verdict": INCONCLUSIVE, "detail": "worker did not answer"}
@@ -148,7 +149,10 @@ def run_case(case):
     if len(set(digests)) > 1:
         what = "verdict"
         if all(d[0] == digests[0][0] for d in digests):
-            what = "IR text" if digests[0][0] == "ok" and all(d[1] == digests[0][1] for d in digests) else "list of diagnostics"
+            if not all(d[:-1] == digests[0][:-1] for d in digests):
+                what = "IR text" if digests[0][0] == "ok" and all(d[1] == digests[0][1] for d in digests) else "list of diagnostics"
+            else:
+                what = "rendered diagnostic text"
         problems.append(("repeated compilation in fresh processes gives a different %s" % what,
                          {"digests": [repr(d)[:300] for d in digests]}))
     kind, r = results[0]
